@@ -607,6 +607,9 @@ def run(run):
         run.guard('iterator rules', iterator_rules, run, F, E)
         run.guard('g2', g2, run, F, E)
         run.guard('capacity extents', capacity_extents, run, F)
+        # "never leaks": clearing a plan walks the whole list, reading each successor before the task is removed, and releases every slot
+        # (shares the clearTasks rule of C09.a)
+        run.guard('clear tasks', c09.clear_tasks, run, F, E, 'C10.j')
         facts.drop(F)
         cfgmod.clear_cache()
     run.floor('C10.a', 40)
@@ -617,6 +620,7 @@ def run(run):
     run.floor('C10.f', 4)
     run.floor('C10.g', 4)
     run.floor('C10.i', 8)
+    run.floor('C10.j', 4)
     # the capacity that was configured is the capacity the plan gets, in whatever order the configuration was written (type-level)
     from gen import static_units
     run.guard('configuration setters', static_units.report, run, 'C10.h', static_units.config_unit('C10.h'))
